@@ -225,9 +225,16 @@ def correspond(cfg, hres, work):
     impl = os.path.join(hres['out'], 'impl.txt')
     model = os.path.join(hres['out'], 'model.txt')
     drv = os.path.join(LEAN, '.lake', 'build', 'bin', 'drv-' + cfg['driver'])
-    with open(ops) as fin, open(model, 'w') as fout:
-        p = subprocess.run([drv], stdin=fin, stdout=fout, stderr=subprocess.PIPE, text=True)
     res = {'ok': True, 'diverging': [], 'n_lines': 0}
+    try:
+        with open(ops) as fin, open(model, 'w') as fout:
+            p = subprocess.run([drv], stdin=fin, stdout=fout, stderr=subprocess.PIPE, text=True,
+                               timeout=cfg.get('driver_timeout', 1200))
+    except subprocess.TimeoutExpired:
+        # the executable model did not answer in time: the correspondence is not established
+        res['ok'] = False
+        res['diverging'].append({'what': 'modeldrv did not finish within its time limit on the operations of this round'})
+        return res
     if p.returncode != 0:
         res['ok'] = False
         res['diverging'].append({'what': 'modeldrv exited with %d: %s' % (p.returncode, p.stderr[-500:])})
